@@ -379,3 +379,494 @@ pub fn gen_api(rng: &mut Rng, len: usize, exec: &mut dyn FnMut(String) -> String
     (g.exec)("R check".into());
     (g.exec)("R drop".into());
 }
+
+// ---------------------------------------------------------------------------
+// damage (C14) and helper-misuse (C15) generators
+// ---------------------------------------------------------------------------
+
+#[derive(Clone, Debug)]
+pub struct LeafInfo {
+    pub live: bool,
+    pub keys: Vec<(i64, u64)>,
+    pub vals: Vec<u64>,
+    pub next: u32,
+}
+#[derive(Clone, Debug)]
+pub struct BranchInfo {
+    pub live: bool,
+    pub keys: Vec<(i64, u64)>,
+    pub children: Vec<(bool, u32)>,
+}
+#[derive(Clone, Debug, Default)]
+pub struct DumpInfo {
+    pub root: (bool, u32),
+    pub cap: usize,
+    pub leaves: Vec<LeafInfo>,
+    pub branches: Vec<BranchInfo>,
+}
+
+fn parse_list(s: &str) -> Vec<String> {
+    let inner = s.trim_start_matches('[').trim_end_matches(']');
+    if inner.is_empty() {
+        Vec::new()
+    } else {
+        inner.split(',').map(|x| x.to_string()).collect()
+    }
+}
+fn parse_key(s: &str) -> (i64, u64) {
+    let mut it = s.split('#');
+    let a = it.next().unwrap_or("0").parse().unwrap_or(0);
+    let b = it.next().unwrap_or("0").parse().unwrap_or(0);
+    (a, b)
+}
+fn parse_nref(s: &str) -> (bool, u32) {
+    (s.starts_with('L'), s[1..].parse().unwrap_or(0))
+}
+
+/// parse the canonical dump line the harness itself prints
+pub fn parse_dump(s: &str) -> DumpInfo {
+    let mut d = DumpInfo::default();
+    for tok in s.split(' ') {
+        if let Some(r) = tok.strip_prefix("root=") {
+            d.root = parse_nref(r);
+        } else if let Some(c) = tok.strip_prefix("cap=") {
+            if d.cap == 0 {
+                d.cap = c.parse().unwrap_or(0);
+            }
+        }
+    }
+    // node slots: `L3:[cap=4 k=[..] v=[..] n=1]` / `B0:free[cap=16 k=[] c=[]]`
+    let mut rest = s;
+    loop {
+        let pos = match (rest.find(":["), rest.find(":free[")) {
+            (Some(a), Some(b)) => a.min(b),
+            (Some(a), None) => a,
+            (None, Some(b)) => b,
+            (None, None) => break,
+        };
+        // find the slot name before pos
+        let head = &rest[..pos];
+        let name_start = head.rfind(' ').map(|i| i + 1).unwrap_or(0);
+        let name = &head[name_start..];
+        let free = rest[pos..].starts_with(":free[");
+        let body_start = pos + if free { 6 } else { 2 };
+        // body ends at the matching "]" that closes the slot: after the last field
+        let body_end = {
+            let mut depth = 1;
+            let mut idx = body_start;
+            for (i, ch) in rest[body_start..].char_indices() {
+                if ch == '[' {
+                    depth += 1;
+                } else if ch == ']' {
+                    depth -= 1;
+                    if depth == 0 {
+                        idx = body_start + i;
+                        break;
+                    }
+                }
+            }
+            idx
+        };
+        let body = &rest[body_start..body_end];
+        let mut keys = Vec::new();
+        let mut vals = Vec::new();
+        let mut children = Vec::new();
+        let mut next = u32::MAX;
+        for f in body.split(' ') {
+            if let Some(k) = f.strip_prefix("k=") {
+                keys = parse_list(k).iter().map(|x| parse_key(x)).collect();
+            } else if let Some(v) = f.strip_prefix("v=") {
+                vals = parse_list(v).iter().map(|x| x.parse().unwrap_or(0)).collect();
+            } else if let Some(c) = f.strip_prefix("c=") {
+                children = parse_list(c).iter().map(|x| parse_nref(x)).collect();
+            } else if let Some(n) = f.strip_prefix("n=") {
+                next = n.parse().unwrap_or(u32::MAX);
+            }
+        }
+        if name.starts_with('L') {
+            d.leaves.push(LeafInfo { live: !free, keys, vals, next });
+        } else if name.starts_with('B') {
+            d.branches.push(BranchInfo { live: !free, keys, children });
+        }
+        rest = &rest[body_end..];
+    }
+    d
+}
+
+fn fkeys(ks: &[(i64, u64)]) -> String {
+    if ks.is_empty() {
+        "-".to_string()
+    } else {
+        ks.iter().map(|k| format!("{}#{}", k.0, k.1)).collect::<Vec<_>>().join(",")
+    }
+}
+fn fvals(vs: &[u64]) -> String {
+    if vs.is_empty() {
+        "-".to_string()
+    } else {
+        vs.iter().map(|v| v.to_string()).collect::<Vec<_>>().join(",")
+    }
+}
+fn frefs(cs: &[(bool, u32)]) -> String {
+    if cs.is_empty() {
+        "-".to_string()
+    } else {
+        cs.iter().map(|c| format!("{}{}", if c.0 { "L" } else { "B" }, c.1)).collect::<Vec<_>>().join(",")
+    }
+}
+
+/// leaves in chain order starting at the leftmost leaf of the tree
+fn chain_order(d: &DumpInfo) -> Vec<u32> {
+    let mut cur = d.root;
+    let mut guard = 64;
+    while !cur.0 && guard > 0 {
+        guard -= 1;
+        match d.branches.get(cur.1 as usize) {
+            Some(b) if !b.children.is_empty() => cur = b.children[0],
+            _ => return Vec::new(),
+        }
+    }
+    let mut out = Vec::new();
+    let mut id = cur.1;
+    let mut guard = d.leaves.len() + 2;
+    while id != u32::MAX && guard > 0 {
+        guard -= 1;
+        out.push(id);
+        match d.leaves.get(id as usize) {
+            Some(l) if l.live => id = l.next,
+            _ => break,
+        }
+    }
+    out
+}
+
+const DAMAGE_KINDS: [&str; 14] = [
+    "unsorted", "duplicate", "count-mismatch", "over-capacity", "underfull", "empty-node", "out-of-interval", "arity",
+    "dangling-child", "chain-skip", "chain-truncate", "chain-misorder", "chain-dangling", "orphan",
+];
+
+/// C14: one valid state, one precise kind of damage, then every validator
+pub fn gen_damage(rng: &mut Rng, len: usize, exec: &mut dyn FnMut(String) -> String, case: usize) {
+    let mut g = Gen::new(rng, exec);
+    g.start(true);
+    let grow = g.cap * (3 + g.rng.below(10) as usize) + len / 8;
+    g.mutate(grow, 88, 0);
+    if g.rng.chance(40) {
+        g.mutate(grow / 3, 25, 0);
+    }
+    (g.exec)("R check".into());
+    let d = parse_dump(&(g.exec)("R dump".into()));
+    let kind = DAMAGE_KINDS[(case + g.rng.below(3) as usize) % DAMAGE_KINDS.len()];
+    let chain = chain_order(&d);
+    let root_leaf = d.root.0;
+    let live_leaves: Vec<u32> = (0..d.leaves.len() as u32).filter(|i| d.leaves[*i as usize].live).collect();
+    let nonroot_leaves: Vec<u32> = live_leaves.iter().copied().filter(|i| !(root_leaf && *i == d.root.1)).collect();
+    let live_branches: Vec<u32> = (0..d.branches.len() as u32).filter(|i| d.branches[*i as usize].live).collect();
+    let unalloc_leaf = (d.leaves.len() as u32) + 3 + g.rng.below(50) as u32;
+    let mut applied = false;
+    let pick = |g: &mut Gen, v: &Vec<u32>| -> Option<u32> {
+        if v.is_empty() {
+            None
+        } else {
+            Some(v[g.rng.below(v.len() as u64) as usize])
+        }
+    };
+    (g.exec)("X toraw".into());
+    match kind {
+        "unsorted" | "duplicate" => {
+            let on_branch = g.rng.chance(30);
+            if on_branch {
+                let cands: Vec<u32> = live_branches.iter().copied().filter(|i| d.branches[*i as usize].keys.len() >= 2).collect();
+                if let Some(id) = pick(&mut g, &cands) {
+                    let mut ks = d.branches[id as usize].keys.clone();
+                    let i = g.rng.below(ks.len() as u64 - 1) as usize;
+                    if kind == "unsorted" {
+                        ks.swap(i, i + 1);
+                    } else {
+                        ks[i + 1] = ks[i];
+                    }
+                    (g.exec)(format!("X branch-keys {} {}", id, fkeys(&ks)));
+                    applied = true;
+                }
+            }
+            if !applied {
+                let cands: Vec<u32> = live_leaves.iter().copied().filter(|i| d.leaves[*i as usize].keys.len() >= 2).collect();
+                if let Some(id) = pick(&mut g, &cands) {
+                    let mut ks = d.leaves[id as usize].keys.clone();
+                    let i = g.rng.below(ks.len() as u64 - 1) as usize;
+                    if kind == "unsorted" {
+                        ks.swap(i, i + 1);
+                    } else {
+                        ks[i + 1] = ks[i];
+                    }
+                    (g.exec)(format!("X leaf-keys {} {}", id, fkeys(&ks)));
+                    applied = true;
+                }
+            }
+        }
+        "count-mismatch" => {
+            if let Some(id) = pick(&mut g, &live_leaves) {
+                let mut vs = d.leaves[id as usize].vals.clone();
+                if g.rng.chance(50) || vs.is_empty() {
+                    vs.push(999_999);
+                } else {
+                    vs.pop();
+                }
+                (g.exec)(format!("X leaf-vals {} {}", id, fvals(&vs)));
+                applied = true;
+            }
+        }
+        "over-capacity" => {
+            if let Some(id) = pick(&mut g, &live_leaves) {
+                let l = &d.leaves[id as usize];
+                let mut ks = l.keys.clone();
+                let mut vs = l.vals.clone();
+                let mut last = ks.last().map(|k| k.0).unwrap_or(0);
+                while ks.len() <= d.cap {
+                    last = last.saturating_add(1);
+                    ks.push((last, 900_000 + ks.len() as u64));
+                    vs.push(900_000 + vs.len() as u64);
+                }
+                (g.exec)(format!("X leaf-keys {} {}", id, fkeys(&ks)));
+                (g.exec)(format!("X leaf-vals {} {}", id, fvals(&vs)));
+                applied = true;
+            }
+        }
+        "underfull" | "empty-node" => {
+            let target = if kind == "empty-node" { 0 } else { (d.cap / 2).saturating_sub(1) };
+            let nonroot_branches: Vec<u32> = live_branches.iter().copied().filter(|i| !(!root_leaf && *i == d.root.1)).collect();
+            if g.rng.chance(30) && !nonroot_branches.is_empty() {
+                let id = pick(&mut g, &nonroot_branches).unwrap();
+                let b = &d.branches[id as usize];
+                let ks: Vec<(i64, u64)> = b.keys.iter().take(target).copied().collect();
+                let cs: Vec<(bool, u32)> = b.children.iter().take(target + 1).copied().collect();
+                (g.exec)(format!("X branch-keys {} {}", id, fkeys(&ks)));
+                (g.exec)(format!("X branch-children {} {}", id, frefs(&cs)));
+                applied = true;
+            } else if let Some(id) = pick(&mut g, &nonroot_leaves) {
+                let l = &d.leaves[id as usize];
+                let ks: Vec<(i64, u64)> = l.keys.iter().take(target).copied().collect();
+                let vs: Vec<u64> = l.vals.iter().take(target).copied().collect();
+                (g.exec)(format!("X leaf-keys {} {}", id, fkeys(&ks)));
+                (g.exec)(format!("X leaf-vals {} {}", id, fvals(&vs)));
+                applied = true;
+            }
+        }
+        "out-of-interval" => {
+            // every leaf with the interval its ancestors' separators allow (bounds are inherited at the first / last child)
+            fn walk(d: &DumpInfo, n: (bool, u32), lo: Option<i64>, hi: Option<i64>, out: &mut Vec<(u32, Option<i64>, Option<i64>)>, depth: usize) {
+                if depth > 40 {
+                    return;
+                }
+                if n.0 {
+                    out.push((n.1, lo, hi));
+                } else if let Some(b) = d.branches.get(n.1 as usize) {
+                    for (i, c) in b.children.iter().enumerate() {
+                        let clo = if i == 0 { lo } else { b.keys.get(i - 1).map(|k| k.0) };
+                        let chi = if i >= b.keys.len() { hi } else { b.keys.get(i).map(|k| k.0) };
+                        walk(d, *c, clo, chi, out, depth + 1);
+                    }
+                }
+            }
+            let mut iv = Vec::new();
+            walk(&d, d.root, None, None, &mut iv, 0);
+            let cands: Vec<(u32, Option<i64>, Option<i64>)> = iv.into_iter().filter(|(id, lo, hi)| {
+                (lo.is_some() || hi.is_some()) && d.leaves.get(*id as usize).map(|l| !l.keys.is_empty()).unwrap_or(false)
+            }).collect();
+            if !cands.is_empty() {
+                let (cid, lo, hi) = cands[g.rng.below(cands.len() as u64) as usize];
+                let mut ks = d.leaves[cid as usize].keys.clone();
+                let use_hi = match (lo, hi) {
+                    (Some(_), Some(_)) => g.rng.chance(50),
+                    (None, Some(_)) => true,
+                    _ => false,
+                };
+                if use_hi {
+                    let n = ks.len();
+                    ks[n - 1].0 = hi.unwrap();
+                    applied = true;
+                } else if let Some(l) = lo {
+                    if l > i64::MIN {
+                        ks[0].0 = l - 1;
+                        applied = true;
+                    }
+                }
+                if applied {
+                    (g.exec)(format!("X leaf-keys {} {}", cid, fkeys(&ks)));
+                }
+            }
+        }
+        "arity" => {
+            if let Some(id) = pick(&mut g, &live_branches) {
+                let mut cs = d.branches[id as usize].children.clone();
+                if g.rng.chance(50) && cs.len() > 1 {
+                    cs.pop();
+                } else {
+                    let extra = *cs.last().unwrap_or(&(true, 0));
+                    cs.push(extra);
+                }
+                (g.exec)(format!("X branch-children {} {}", id, frefs(&cs)));
+                applied = true;
+            }
+        }
+        "dangling-child" => {
+            if let Some(id) = pick(&mut g, &live_branches) {
+                let mut cs = d.branches[id as usize].children.clone();
+                if !cs.is_empty() {
+                    let i = g.rng.below(cs.len() as u64) as usize;
+                    cs[i].1 = if cs[i].0 { unalloc_leaf } else { d.branches.len() as u32 + 7 };
+                    (g.exec)(format!("X branch-children {} {}", id, frefs(&cs)));
+                    applied = true;
+                }
+            }
+        }
+        "chain-skip" => {
+            if chain.len() >= 3 {
+                let i = g.rng.below(chain.len() as u64 - 2) as usize;
+                let target = d.leaves[chain[i + 1] as usize].next;
+                (g.exec)(format!("X leaf-next {} {}", chain[i], target));
+                applied = true;
+            }
+        }
+        "chain-truncate" => {
+            if chain.len() >= 2 {
+                let i = g.rng.below(chain.len() as u64 - 1) as usize;
+                (g.exec)(format!("X leaf-next {} {}", chain[i], u32::MAX));
+                applied = true;
+            }
+        }
+        "chain-misorder" => {
+            if chain.len() >= 3 {
+                let i = g.rng.below(chain.len() as u64 - 2) as usize;
+                let (a, b, c) = (chain[i], chain[i + 1], chain[i + 2]);
+                let after = d.leaves[c as usize].next;
+                (g.exec)(format!("X leaf-next {} {}", a, c));
+                (g.exec)(format!("X leaf-next {} {}", c, b));
+                (g.exec)(format!("X leaf-next {} {}", b, after));
+                applied = true;
+            }
+        }
+        "chain-dangling" => {
+            if let Some(last) = chain.last() {
+                let free_slot = (0..d.leaves.len() as u32).find(|i| !d.leaves[*i as usize].live);
+                let target = match (free_slot, g.rng.chance(50)) {
+                    (Some(f), true) => f,
+                    _ => unalloc_leaf,
+                };
+                (g.exec)(format!("X leaf-next {} {}", last, target));
+                applied = true;
+            }
+        }
+        _ => {
+            (g.exec)(format!("X alloc-leaf {}", d.cap));
+            applied = true;
+        }
+    }
+    if applied {
+        (g.exec)(format!("X note {}", kind));
+    }
+    let verdict = (g.exec)("R check".into());
+    (g.exec)("R validateop".into());
+    if !applied || verdict.contains("detailed=ok") {
+        // nothing was damaged, or the validators (wrongly) accept the damage: mutating such a map
+        // through try_insert could loop forever on a broken chain — the oracle has already spoken
+        (g.exec)("R drop".into());
+        return;
+    }
+    let k = g.some_key();
+    (g.exec)(format!("R tryinsert {}#777 777", k));
+    let k2 = g.present_key().unwrap_or(0);
+    (g.exec)(format!("R tryremove {}", k2));
+    (g.exec)("R dump".into());
+    (g.exec)("R drop".into());
+}
+
+/// C15: a valid state, then safe public helper calls that leave it inconsistent, then every reader
+pub fn gen_helpers(rng: &mut Rng, len: usize, exec: &mut dyn FnMut(String) -> String, _case: usize) {
+    let mut g = Gen::new(rng, exec);
+    g.start(true);
+    let grow = g.cap * (2 + g.rng.below(8) as usize) + len / 10;
+    g.mutate(grow, 85, 0);
+    let mut d = parse_dump(&(g.exec)("R dump".into()));
+    (g.exec)("X toraw".into());
+    let steps = 1 + g.rng.below(5) as usize;
+    for _ in 0..steps {
+        let chain = chain_order(&d);
+        let live_leaves: Vec<u32> = (0..d.leaves.len() as u32).filter(|i| d.leaves[*i as usize].live).collect();
+        if live_leaves.is_empty() {
+            break;
+        }
+        let id = live_leaves[g.rng.below(live_leaves.len() as u64) as usize];
+        let l = d.leaves[id as usize].clone();
+        match g.rng.below(11) {
+            0 => {
+                // a key without a value (kept ascending inside the node so searches stay defined)
+                // (strictly ascending: binary search on duplicate keys is unspecified and is not compared)
+                if l.keys.last().map(|k| k.0 < i64::MAX).unwrap_or(true) {
+                    let k = l.keys.last().map(|k| k.0 + 1).unwrap_or(0);
+                    (g.exec)(format!("X push-key {} {}#555", id, k));
+                }
+            }
+            1 => {
+                (g.exec)(format!("X push-value {} 555", id));
+            }
+            2 => {
+                (g.exec)(format!("X take-values {}", id));
+            }
+            3 => {
+                (g.exec)(format!("X take-keys {}", id));
+            }
+            4 => {
+                (g.exec)(format!("X pop {}", id));
+            }
+            5 => {
+                let i = g.rng.below(l.keys.len() as u64 + 1);
+                // remove_at panics (safely) when the value vector is shorter; only call it where it cannot
+                if (i as usize) < l.vals.len() || (i as usize) >= l.keys.len() {
+                    (g.exec)(format!("X remove-at {} {}", id, i));
+                }
+            }
+            6 | 7 => {
+                // next pointer: NULL, a freed slot, out of range, or further down the chain (never backwards: no cycles)
+                let pos = chain.iter().position(|x| *x == id);
+                let free_slot = (0..d.leaves.len() as u32).find(|i| !d.leaves[*i as usize].live);
+                let target = match g.rng.below(4) {
+                    0 => u32::MAX,
+                    1 => free_slot.unwrap_or(d.leaves.len() as u32 + 9),
+                    2 => d.leaves.len() as u32 + g.rng.below(1000) as u32,
+                    _ => match pos {
+                        Some(p) if p + 2 < chain.len() => chain[p + 2],
+                        _ => 12345,
+                    },
+                };
+                (g.exec)(format!("X leaf-next {} {}", id, target));
+            }
+            8 => {
+                (g.exec)(format!("X dealloc-leaf {}", id));
+            }
+            9 => {
+                (g.exec)(format!("X alloc-leaf {}", d.cap));
+            }
+            _ => {
+                let live_branches: Vec<u32> = (0..d.branches.len() as u32).filter(|i| d.branches[*i as usize].live).collect();
+                if !live_branches.is_empty() {
+                    let b = live_branches[g.rng.below(live_branches.len() as u64) as usize];
+                    (g.exec)(format!("X dealloc-branch {}", b));
+                }
+            }
+        }
+        d = parse_dump(&(g.exec)("R dump".into()));
+    }
+    for op in ["items", "itemsfast", "keys", "values", "first", "last", "len", "counts", "check", "validateop"] {
+        (g.exec)(format!("R {}", op));
+    }
+    for _ in 0..6 {
+        let (lo, hi) = (g.bound(), g.bound());
+        (g.exec)(format!("R range {} {}", lo, hi));
+        let k = g.probe_key();
+        (g.exec)(format!("R get {}", k));
+    }
+    (g.exec)("R partial 5 3".into());
+    (g.exec)("R partialfast 5 3".into());
+    (g.exec)("R drop".into());
+}
